@@ -137,6 +137,42 @@ Fixpoint burst (write : list N -> N -> option (list N)) (q inl : list N) (ids : 
 Definition pipe_write_overwriting (cap : nat) (q : list N) (x : N) : option (list N) :=
   Some (x :: firstn (cap - 1) q).
 
+
+(* ------------------------------------------------ wake-up: publish-then-check on both sides needs a full fence
+   Scheduling thread (SplitAndAddTask; WakeThreads):  X := 1 (pipe write index: a task is published);  r1 := Y (m_NumThreadsWaiting)
+   Idle worker       (WaitForTasks):                   Y := 1 (m_NumThreadsWaiting incremented);        r2 := X (IsPipeEmpty)
+   If r1 = 0 and r2 = 0 nobody is signalled and the worker sleeps on the semaphore with a task pending: the closure is
+   not run "eventually, with no further action required from the caller".  On x86-TSO a store sits in the store buffer
+   of its core until flushed and a later load of ANOTHER location may be satisfied from memory first, so both loads can
+   miss both stores unless EACH side has a full fence (or a locked instruction) between its store and its load.
+   This is the hypothesis behind "a stored piece is handed to a reader" in the pipe contract above.
+   State of the litmus: memory X,Y; one store-buffer slot per thread; program counters; loaded values. *)
+Record sbstate := mksb { sm1 : bool; sm2 : bool; sb1 : bool; sb2 : bool; sp1 : nat; sp2 : nat; sr1 : bool; sr2 : bool }.
+Definition sb_init : sbstate := mksb false false false false 0 0 true true.
+(* pc 0: store into the own buffer; pc 1: the fence (if present: enabled only once the buffer is flushed); pc 2: load; 3: done *)
+Definition sb_succs (fence1 fence2 : bool) (s : sbstate) : list sbstate :=
+  (match sp1 s with
+   | O => [mksb (sm1 s) (sm2 s) true (sb2 s) 1 (sp2 s) (sr1 s) (sr2 s)]
+   | S O => if negb fence1 || negb (sb1 s) then [mksb (sm1 s) (sm2 s) (sb1 s) (sb2 s) 2 (sp2 s) (sr1 s) (sr2 s)] else []
+   | S (S O) => [mksb (sm1 s) (sm2 s) (sb1 s) (sb2 s) 3 (sp2 s) (sm2 s) (sr2 s)]
+   | _ => [] end) ++
+  (match sp2 s with
+   | O => [mksb (sm1 s) (sm2 s) (sb1 s) true (sp1 s) 1 (sr1 s) (sr2 s)]
+   | S O => if negb fence2 || negb (sb2 s) then [mksb (sm1 s) (sm2 s) (sb1 s) (sb2 s) (sp1 s) 2 (sr1 s) (sr2 s)] else []
+   | S (S O) => [mksb (sm1 s) (sm2 s) (sb1 s) (sb2 s) (sp1 s) 3 (sr1 s) (sm1 s)]
+   | _ => [] end) ++
+  (if sb1 s then [mksb true (sm2 s) false (sb2 s) (sp1 s) (sp2 s) (sr1 s) (sr2 s)] else []) ++   (* flush buffer 1 *)
+  (if sb2 s then [mksb (sm1 s) true (sb1 s) false (sp1 s) (sp2 s) (sr1 s) (sr2 s)] else []).      (* flush buffer 2 *)
+Definition sb_done (s : sbstate) : bool := Nat.eqb (sp1 s) 3 && Nat.eqb (sp2 s) 3.
+(* is there an execution in which both loads miss both stores? (every execution has at most 8 steps) *)
+Fixpoint both_miss_from (fuel : nat) (f1 f2 : bool) (s : sbstate) : bool :=
+  match fuel with
+  | O => false
+  | S k => (sb_done s && negb (sr1 s) && negb (sr2 s)) || existsb (both_miss_from k f1 f2) (sb_succs f1 f2 s)
+  end.
+Definition lost_wakeup_possible (fence_scheduler fence_worker : bool) : bool :=
+  both_miss_from 10 fence_scheduler fence_worker sb_init.
+
 (* ================================= C. memory events on the heap LocalTask (by task id) *)
 Inductive mev := MAlloc      (* new LocalTask *)
                | MWriteRC    (* m_RunningCount = 0          AddTaskSetToPipe *)
